@@ -1,6 +1,7 @@
 package vh
 
 import (
+	"sync"
 	"time"
 	"bufio"
 	"bytes"
@@ -643,6 +644,48 @@ func (r *EngineRunner) Exec(f []string) (res string) {
 		r.mergeSeen = nil
 		r.installMergeHook()
 		err := r.db.Merge()
+		var ids []string
+		for _, id := range r.mergeSeen {
+			ids = append(ids, fmt.Sprintf("%d", id))
+		}
+		r.ref.merge(r, err)
+		s := "ok"
+		if err != nil {
+			s = "err " + EngErr(err)
+		}
+		return s + " order " + strings.Join(ids, ",") + r.takeEvents(false)
+	case "mergebusy":
+		// a Merge that is probed while it runs: parked at its first scan step, two more Merge calls must both
+		// be refused (the running merge owns the merge directory until it returns); then it is released.
+		// For the model this is one Merge.
+		r.mergeSeen = nil
+		r.installMergeHook()
+		parked, release, done := make(chan struct{}), make(chan struct{}), make(chan error, 1)
+		var once sync.Once
+		mergeG := int64(-1)
+		kv.VerifSched = func(label string) {
+			if label == "merge.scan" && goid() == mergeG {
+				once.Do(func() { close(parked); <-release })
+			}
+		}
+		go func() { mergeG = goid(); done <- r.db.Merge() }()
+		var err error
+		select {
+		case err = <-done: // nothing to scan: no probe
+		case <-parked:
+			for i := 1; i <= 2; i++ {
+				if e2 := r.db.Merge(); !errors.Is(e2, kv.ErrMergeIsProgress) {
+					r.fail("C07", "Merge call %d issued while another Merge was running returned %v instead of the merge-in-progress error (two merges share one output directory)", i, e2)
+				}
+			}
+			close(release)
+			err = <-done
+		case <-time.After(20 * time.Second):
+			r.fail("C09", "Merge did not reach its scan within 20 s")
+			close(release)
+			err = <-done
+		}
+		kv.VerifSched = nil
 		var ids []string
 		for _, id := range r.mergeSeen {
 			ids = append(ids, fmt.Sprintf("%d", id))
